@@ -1,4 +1,5 @@
 import MindsVerif.Lemmas.TS
+import MindsVerif.Lemmas.TSClosed
 import MindsVerif.Gen.TSCfg
 /-!
 # C15 — a time-series model receives exactly its context window plus selected rows
@@ -22,7 +23,12 @@ that fills `$var[col]` null-safely):
   neither applied nor rejected (KF-C15-6, KF-C15-7);
 * `C15_rows_nullsafe` / `C15_null_partition_empty` — what the executor must provide for NULL partition values;
 * `C15_partitions`, `C15_otf_partial` (all classes except `t = c`, see KF-C15-1 and `C15_witness_1`), `C15_limit`;
-* `C15_reject_flags`, `C15_decision`, `C15_reject_where` (every WHERE, pinned tree), `C15_no_crash`.
+* `C15_reject_flags`, `C15_decision`, `C15_reject_where` (every WHERE, pinned tree), `C15_no_crash`;
+* sub-queries (round 6): a partition filter `g IN (SELECT … FROM shops WHERE w)` is in `Dom` for EVERY sub-query WHERE `w`
+  (`isPF`), so `C15_rows` & co. say that its rows are those of the user's own sub-query; `C15_replace_subqueries`,
+  `C15_replace_conjuncts`, `C15_plan_subqueries`: `replace_time_filter` and every query built from it leave all
+  sub-queries / value lists / CAST / CASE untouched, on all trees; `C15_witness_deep_replace`, `C15_witness_deep_rows`: a
+  replacement that walks the whole tree (`replaceDeep`) does not.
 History (statements about the earlier variants, kept because they hold for every `cfg` / are used by the proofs):
 `C15_reject_where_partial`, `C15_validate_iff` (shallow `validate`), `C15_reject_where_fixed`, `C15_rows_rev_fixed`
 (the generic forms of `C15_reject_where`, `C15_rows_rev`). Regression `example`s state the repaired behaviour of the
@@ -594,11 +600,11 @@ theorem C15_null_partition_empty (cfg : Cfg) (m : Meta) (q : Query α) (tc : Opt
 null-safely (`col IS NOT DISTINCT FROM value`): this is `C15_rows` with `e.ns = true` -/
 theorem C15_rows_nullsafe (cfg : Cfg) (m : Meta) (q : Query α) (tc : Option (TC α)) (hp : plain q)
     (hd : Dom m.nG tc q.whereC = true) :
-    ∃ pl, planTS cfg m q = .ok pl ∧ ∀ (p : List (Option α)) (T : List (Row α)),
-      ∃ L, WindowSpec m.window ⟨p, true⟩ m.nG tc q.whereC T L ∧
-        (fetched ⟨p, true⟩ T pl.selects).Perm (condRows ⟨p, true⟩ m.nG tc q.whereC T ++ L) := by
+    ∃ pl, planTS cfg m q = .ok pl ∧ ∀ (p : List (Option α)) (S T : List (Row α)),
+      ∃ L, WindowSpec m.window ⟨p, true, S⟩ m.nG tc q.whereC T L ∧
+        (fetched ⟨p, true, S⟩ T pl.selects).Perm (condRows ⟨p, true, S⟩ m.nG tc q.whereC T ++ L) := by
   obtain ⟨pl, h1, h2⟩ := C15_rows cfg m q tc hp hd
-  exact ⟨pl, h1, fun p T => h2 ⟨p, true⟩ T (by simp [envOk])⟩
+  exact ⟨pl, h1, fun p S T => h2 ⟨p, true, S⟩ T (by simp [envOk])⟩
 
 /-! ## witnesses: the model exhibits the known defects (each reproduced on the real code by the check) -/
 
@@ -640,7 +646,7 @@ the user's condition (so the specification set is not empty), but nothing is fet
 library by itself — it states what the executor of MapReduceStep must do (`C15_rows_nullsafe`). -/
 theorem C15_witness_null :
     let q : Query Int := { whereC := some (TC.gt 2).toW }
-    let e : Env Int := ⟨[none], false⟩
+    let e : Env Int := ⟨[none], false, []⟩
     let T : List (Row Int) := [⟨some 3, [none]⟩]
     condRows e 1 (some (.gt 2)) q.whereC T = T ∧
     ∀ pl, planTS Cfg.pinned ⟨1, 3⟩ q = .ok pl → fetched e T pl.selects = [] := by
@@ -653,6 +659,98 @@ theorem C15_full_false : ¬ C15_full Int := by
   have h1 := (h Cfg.pinned ⟨1, 3⟩ { whereC := some (TC.eq 5).toW }).2 (some (.eq 5)) (by decide) (by decide)
   obtain ⟨pl, hpl, hn⟩ := C15_witness_1
   exact hn (h1.2 pl hpl).2.1
+
+/-! ## sub-queries: what `replace_time_filter` reaches (round 6) -/
+
+/-- `replace_time_filter` leaves every sub-query, value list, CAST and CASE of the tree exactly as written -- all trees, every
+time filter and replacement that contain no such node themselves (the replacement the planner builds, `t <op> <bound>`, is
+made of the order column and an operand of the time filter) -/
+theorem C15_replace_subqueries (tf new w : W α) (htf : closedNodes tf = []) (hnew : closedNodes new = []) :
+    closedNodes (replaceTF tf new w) = closedNodes w :=
+  closedNodes_replaceTF tf new htf hnew w
+
+/-- on every AND-nesting of conditions whose operands are not conditions themselves, `replace_time_filter` changes exactly the
+conjuncts that ARE the time filter, as whole conjuncts; every other conjunct -- in particular `g IN (SELECT … WHERE <the same
+condition>)` -- is returned as it is -/
+theorem C15_replace_conjuncts (tf new w : W α) (htf : tf.isOperation = true) (hna : ∀ l r, tf ≠ .bin .and l r)
+    (hw : flatTree w = true) :
+    replaceTF tf new w = mapConj (fun c => if c = tf then new else c) w :=
+  replaceTF_flat tf new htf hna w hw
+
+/-- planner level, every WHERE the planner accepts, every variant: each query sent to the data source (window select,
+range select, partition query) carries exactly the sub-queries / value lists / CAST / CASE of the user's WHERE, unchanged and
+in the same order -- provided the time condition itself contains none -/
+theorem C15_plan_subqueries (cfg : Cfg) (m : Meta) (q : Query α) (w : W α) (pl : Plan α) (hw : q.whereC = some w)
+    (hpl : planTS cfg m q = .ok pl) (htf : ∀ t, findTF w = .one t → closedNodes t = []) :
+    (∀ s ∈ pl.selects, closedNodes s.whereC = closedNodes w) ∧
+    (∀ pw, pl.partWhere = some (some pw) → closedNodes pw = closedNodes w) ∧
+    (pl.partWhere = some none → closedNodes w = []) := by
+  -- the three facts for `planOk` on a WHERE `pw` with the closed nodes of `w`
+  have key : ∀ (pw : W α) (tf : Option (W α)), (∀ t, tf = some t → closedNodes t = []) →
+      closedNodes pw = closedNodes w → pl = planOk m (some pw) q.limit tf →
+      (∀ s ∈ pl.selects, closedNodes s.whereC = closedNodes w) ∧
+      (∀ pw', pl.partWhere = some (some pw') → closedNodes pw' = closedNodes w) ∧
+      (pl.partWhere = some none → closedNodes w = []) := by
+    intro pw tf h1 h2 hp
+    have hrm := closedNodes_removeTF tf h1 pw
+    subst hp
+    rw [planOk_eq]
+    refine ⟨?_, ?_, ?_⟩
+    · intro s hs
+      simp only [List.mem_map] at hs
+      obtain ⟨s0, hs0, rfl⟩ := hs
+      simp only [injectSel, closedNodes_injectVars]
+      rw [closedNodes_branches m.window pw tf h1 s0 hs0, h2]
+    · intro pw' hpw'
+      by_cases hn : m.nG = 0
+      · simp [hn] at hpw'
+      · simp only [hn, if_false, Option.some.injEq, removeO] at hpw'
+        rw [hpw'] at hrm; simp only [Option.getD_some] at hrm; rw [hrm, h2]
+    · intro hpn
+      by_cases hn : m.nG = 0
+      · simp [hn] at hpn
+      · simp only [hn, if_false, Option.some.injEq, removeO] at hpn
+        rw [hpn] at hrm; simp only [Option.getD_none, closedNodes] at hrm; rw [← h2, ← hrm]
+  unfold planTS at hpl
+  split at hpl; · cases hpl
+  split at hpl; · cases hpl
+  split at hpl; · cases hpl
+  rw [hw] at hpl
+  simp only [ftOf] at hpl
+  split at hpl
+  · cases hpl
+  · cases hpl
+  · rename_i t ht
+    have h0 := htf t ht
+    injection hpl with hpl
+    simp only [normStep] at hpl
+    split at hpl
+    · exact key _ _ (by intro t' e; injection e with e; subst e; exact closedNodes_normTF t h0)
+        (closedNodes_replaceTF t _ h0 (closedNodes_normTF t h0) w) hpl.symm
+    · exact key _ _ (by intro t' e; injection e with e; subst e; exact h0) rfl hpl.symm
+  · injection hpl with hpl
+    exact key _ _ (by intro t' e; cases e) rfl hpl.symm
+
+/-- the deep-walking replacement differs from the library's: on `t > 10 AND g IN (SELECT g FROM shops WHERE t > 10)` the
+library rewrites the first conjunct only, the walk over the whole tree also rewrites the sub-query's WHERE -/
+theorem C15_witness_deep_replace :
+    let tf : W Int := (TC.gt 10).toW
+    let new : W Int := .bin .le (.ident .time) (.const 10)
+    let pf (c : W Int) : W Int := .bin .inn (.ident (.grp 0)) (.sub 1 c)
+    replaceTF tf new (.bin .and tf (pf tf)) = .bin .and new (pf tf) ∧
+    replaceDeep tf new (.bin .and tf (pf tf)) = .bin .and new (pf new) ∧
+    closedNodes (replaceDeep tf new (.bin .and tf (pf tf))) ≠ closedNodes (.bin .and tf (pf tf)) := by decide
+
+/-- … and the rows differ: shop 1 opened on day 20 (`t > 10` selects its vendor), the data table has a row of vendor 1 on
+day 8. It precedes the lower bound, so it belongs to the window; the library's window query selects it, the query with the
+rewritten sub-query (`… FROM shops WHERE t <= 10`: no shop) does not -/
+theorem C15_witness_deep_rows :
+    let tf : W Int := (TC.gt 10).toW
+    let new : W Int := .bin .le (.ident .time) (.const 10)
+    let w : W Int := .bin .and tf (.bin .inn (.ident (.grp 0)) (.sub 1 tf))
+    let e : Env Int := { p := [some 1], shops := [⟨some 20, [some 1]⟩, ⟨some 4, [some 2]⟩] }
+    let r : Row Int := ⟨some 8, [some 1]⟩
+    sel e (replaceTF tf new w) r = true ∧ restSel e tf w r = true ∧ sel e (replaceDeep tf new w) r = false := by decide
 
 /-! ## non-vacuity -/
 
@@ -669,14 +767,29 @@ example : (VOrd.le "2020-01-02" "2020-01-10" : Bool) = true := by decide
 example : tcTree (α := Int) 1 (TL.rev .ltLatest).toW
     (.bin .and (.bin .eq (.ident (.grp 0)) (.const 1)) (RC.ltLatest).toW) = true := by decide
 example : plain (α := Int) { whereC := none, limit := some 7 } := by decide
-example : envOk (α := Int) ⟨[some 1, none], true⟩ 2 = true ∧ envOk (α := Int) ⟨[some 1, some 2], false⟩ 2 = true := by
+example : envOk (α := Int) ⟨[some 1, none], true, []⟩ 2 = true ∧ envOk (α := Int) ⟨[some 1, some 2], false, []⟩ 2 = true := by
   decide
 /-- the specification sets are inhabited, with a tie at the window boundary (two candidates at t = 1) -/
 example :
     let T : List (Row Int) := [⟨some 1, [some 1]⟩, ⟨some 1, [some 1]⟩, ⟨some 3, [some 1]⟩, ⟨none, [some 1]⟩, ⟨some 0, [some 2]⟩]
-    condRows ⟨[some 1], false⟩ 1 (some (.gt 2)) (some (TC.gt 2).toW) T = [⟨some 3, [some 1]⟩] ∧
-    candRows ⟨[some 1], false⟩ 1 (some (.gt 2)) (some (TC.gt 2).toW) (fun v => vle v 2) T
+    condRows ⟨[some 1], false, []⟩ 1 (some (.gt 2)) (some (TC.gt 2).toW) T = [⟨some 3, [some 1]⟩] ∧
+    candRows ⟨[some 1], false, []⟩ 1 (some (.gt 2)) (some (TC.gt 2).toW) (fun v => vle v 2) T
       = [⟨some 1, [some 1]⟩, ⟨some 1, [some 1]⟩] := by decide
 example : visible (α := Int) (.bin .and (.bin .eq (.ident .other) (.const 1)) (TC.gt 2).toW) = true := by decide
+
+/-- a partition filter with a sub-query that spells the outer time condition (inside OR, next to a further sub-query) is in
+the domain of `C15_rows` -/
+example : Dom (α := Int) 1 (some (.gt 10)) (some (.bin .and (TC.gt 10).toW
+    (.bin .inn (.ident (.grp 0)) (.sub 1 (.bin (.bad 0) (TC.gt 10).toW
+      (.bin .inn (.ident (.grp 0)) (.sub 1 (TC.gt 10).toW))))))) = true := by decide
+/-- the hypotheses of `C15_replace_conjuncts` / `C15_plan_subqueries` hold for it -/
+example : flatTree (α := Int) (.bin .and (TC.gt 10).toW (.bin .inn (.ident (.grp 0)) (.sub 1 (TC.gt 10).toW))) = true ∧
+    closedNodes (α := Int) (TC.gt 10).toW = [] ∧ (TC.gt 10).toW.isOperation (α := Int) = true := by decide
+/-- the row semantics of `IN (sub-query)`: TRUE on a match, NULL (not selected) when only a NULL could match -/
+example :
+    let e : Env Int := { p := [], shops := [⟨some 20, [some 1]⟩, ⟨some 4, [none]⟩] }
+    ev e ⟨some 1, [some 1]⟩ (.bin .inn (.ident (.grp 0)) (.sub 1 .null)) = some true ∧
+    ev e ⟨some 1, [some 2]⟩ (.bin .inn (.ident (.grp 0)) (.sub 1 .null)) = none ∧
+    ev e ⟨some 1, [some 2]⟩ (.bin .inn (.ident (.grp 0)) (.sub 1 (TC.gt 10).toW)) = some false := by decide
 
 end MindsVerif.Props.C15
